@@ -102,9 +102,99 @@ CANARY_FILTERS = [
 ]
 
 
+def tokens_problem(hz, text):
+    """None, or which token of the (accepted) filter is not a well-formed Haystack token"""
+    import re
+    GF = sys.modules['hszinc.grid_filter']
+    D = sys.modules['hszinc.datatypes']
+    FA = sys.modules['hszinc.filter_ast']
+    with contextlib.redirect_stdout(io.StringIO()):
+        ast_ = GF.parse_filter(text)
+    bad = []
+
+    def lit(v):
+        if isinstance(v, D.Ref):
+            if not re.match(r'^[A-Za-z0-9_:.~-]*\Z', v.name):
+                bad.append('reference name %r' % v.name)
+        elif isinstance(v, D.XStr):
+            if not re.match(r'^[A-Za-z0-9_]+\Z', v.encoding):
+                bad.append('type name %r' % v.encoding)
+        elif isinstance(v, list):
+            for x in v:
+                lit(x)
+        elif isinstance(v, dict) or type(v).__name__ in ('SortableDict', 'MetadataObject'):
+            for k in list(v.keys()):
+                if not re.match(r'^[a-z][A-Za-z0-9_]*\Z', k):
+                    bad.append('tag name %r' % k)
+                lit(v[k])
+
+    def walk(n):
+        if isinstance(n, FA.FilterAST):
+            walk(n._head)
+        elif isinstance(n, FA.FilterPath):
+            for name in n.path:
+                if not re.match(r'^[a-z][A-Za-z0-9_]*\Z', name):
+                    bad.append('tag name %r' % name)
+        elif isinstance(n, FA.FilterBinary):
+            walk(n.left)
+            walk(n.right)
+        elif isinstance(n, FA.FilterUnary):
+            walk(n.right)
+        else:
+            lit(n)
+    walk(ast_)
+    return ('accepted although it holds an ill-formed %s' % bad[0]) if bad else None
+
+
+def global_state():
+    """what a program can see of hszinc's module-level state: every module global's identity and, for containers, size"""
+    st = {}
+    for name, mod in list(sys.modules.items()):
+        if mod is None or not (name == 'hszinc' or name.startswith('hszinc.')):
+            continue
+        for attr, val in list(vars(mod).items()):
+            if attr.startswith('_gen_hsfilter_'):
+                continue            # the compiled filter functions themselves (bounded by the LRU cache)
+            if attr == '__warningregistry__':
+                # the interpreter's per-module record of warnings already shown: its 'version' stamp and the library deprecation
+                # warnings (fixed text, once per process) come and go with the warning filters; what counts is an entry for any
+                # other warning, which is keyed by the warning's text
+                st[(name, attr)] = frozenset(k for k in val if isinstance(k, tuple) and not (isinstance(k[1], type) and issubclass(k[1], DeprecationWarning)))
+                continue
+            size = len(val) if type(val) in (dict, list, set) else None
+            st[(name, attr)] = (id(val), size)
+    return st
+
+
+def state_changes(before, after):
+    out = []
+    for k in sorted(set(before) | set(after)):
+        b, a = before.get(k), after.get(k)
+        if k[1] == '__warningregistry__':
+            if (a or frozenset()) - (b or frozenset()):
+                out.append('%s.%s (new entry %r)' % (k[0], k[1], sorted((a or frozenset()) - (b or frozenset()), key=repr)[0][0][:60]))
+        elif b != a:
+            out.append('%s.%s' % k)
+    return out
+
+
 def audit_run(hz, texts):
     """run Grid.filter for each text under an audit hook; -> list of (text, problem)"""
+    import warnings
     GF = sys.modules['hszinc.grid_filter']
+    # warm-up: lazily built tables (zone maps, ...) exist before the first snapshot
+    # (under the same default warning filters as the audited runs: library deprecation warnings with a fixed text are
+    # registered once per process and are not derived from the filter)
+    with warnings.catch_warnings():
+        warnings.simplefilter('default')
+        with contextlib.redirect_stdout(io.StringIO()), contextlib.redirect_stderr(io.StringIO()):
+            wg = hz.Grid(version='3.0', columns=[('id', []), ('x', [])])
+            wg.append({'id': 'a', 'x': 1})
+            for w in ('x == 2020-01-01T00:00:00+01:00 Paris', 'x == 2020-01-01T00:00:00Z', 'x == 5kW and x != `u` or not x->y', 'x == [1, {a:"b"}, Tx("p")]'):
+                try:
+                    wg.filter(w)
+                except Exception:
+                    pass
     builtins.CANARY = []
     state = dict(armed=False, events=[], sources=[])
 
@@ -128,19 +218,32 @@ def audit_run(hz, texts):
         before_globals = set(vars(GF))
         state['events'], state['sources'] = [], []
         builtins.CANARY[:] = []
+        before_state = global_state()
         state['armed'] = True
         try:
-            with contextlib.redirect_stdout(io.StringIO()):
-                try:
-                    g.filter(text)
-                    outcome = 'evaluated'
-                except Exception as e:
-                    import pyparsing
-                    outcome = 'rejected' if isinstance(e, (pyparsing.ParseBaseException, ValueError)) else 'raised %s: %s' % (type(e).__name__, str(e)[:80])
+            # the interpreter's default warning filters (what a program that did not configure warnings has): a warning raised
+            # with text from the filter leaves an entry in the module's __warningregistry__
+            with warnings.catch_warnings():
+                warnings.simplefilter('default')
+                with contextlib.redirect_stdout(io.StringIO()), contextlib.redirect_stderr(io.StringIO()):
+                    try:
+                        g.filter(text)
+                        outcome = 'evaluated'
+                    except Exception as e:
+                        import pyparsing
+                        outcome = 'rejected' if isinstance(e, (pyparsing.ParseBaseException, ValueError)) else 'raised %s: %s' % (type(e).__name__, str(e)[:80])
         finally:
             state['armed'] = False
+        after_state = global_state()
+        changed = state_changes(before_state, after_state)
+        if changed:
+            problems.append((text, 'module-level state changed: %s' % ', '.join(changed[:4])))
         if outcome.startswith('raised'):
             problems.append((text, 'not a parse error: ' + outcome))
+        if outcome == 'evaluated':
+            tp = tokens_problem(hz, text)
+            if tp:
+                problems.append((text, tp))
         if builtins.CANARY:
             problems.append((text, 'code from the filter text ran (canary set)'))
         if state['events']:
